@@ -9,7 +9,7 @@ from harness import tlc, gen
 from harness.common import enc, enc_seq, workdir, write_ndjson, Report
 
 LABELS = {1: "m1", 2: "my label 2"}
-DTUS = [1, 100, 9999, 10000, 15000, 125000, 1000000]
+DTUS = [1, 100, 9999, 10000, 10625, 123456, 999999, 1000000]
 MICRO = [-1500000, -1, 0, 1, 499999, 123456789]
 LOADERS = ["load_values_and_dt", "load_signal(signal)", "load_signal(acc_sig)", "load_sig", "load_sig(m=2)", "load_sig(m=-3)",
            "load_asig", "load_asig(label)", "load_asig(label, m=2)", "load_asig(m=-3)"]
@@ -149,7 +149,7 @@ def run(tier, seed):
                 job="C16/mc", coverage=(tier == "thorough"))
     if r.invariant_violated:
         raise tlc.MachineryError("model invariant violated in TextFormat: %s" % r.invariant_violated)
-    rep.add_tlc("TextFormat", r, "npts 1..3 x 7 time steps (1e-4 .. 100 s) x 6 micro-values x 10 loader entry points; New -> Save -> Load -> Resave; real files written and read back")
+    rep.add_tlc("TextFormat", r, "npts 1..3 x 8 time steps (1e-4 .. 100 s) x 6 micro-values x 10 loader entry points; New -> Save -> Load -> Resave; real files written and read back")
     rep.evaluations += len(cfgs) * len(LOADERS)
     rep.exhaustive = (tier == "thorough")
     for code, clause in r.mismatches[:4000]:
